@@ -70,6 +70,7 @@ type Frame struct {
 	held      []*heldLock
 	nAcquire  int
 	acquired  map[*lockSpec]bool // locks this (top) frame has taken on some path
+	wantCurrent bool // resolveLocal: skip the entry value of parameters
 	nUnlock   int
 	relOrd    map[ssa.Instruction]int
 	ghosts    []*Val
@@ -496,20 +497,23 @@ func (fr *Frame) loopHead(li *loopInfo, phis []*ssa.Phi) {
 		ws.all = false
 	}
 	li.entryAlloc = fr.st.alloc
+	if ws.allocs || ws.all {
+		// (the watermark first: the havocked heaps may hold objects allocated by earlier iterations)
+		a := fr.vc.fresh("alloc", sInt)
+		fr.vc.fact(app("<=", fr.st.alloc, a))
+		fr.st.alloc = a
+	}
 	for _, h := range sortedKeys(ws.heaps) {
 		if _, ok := fr.vc.heapSort[h]; !ok {
 			fr.vc.heapSort[h] = ws.heaps[h]
 		}
 		old := fr.vc.heapGet(fr.st, h)
 		nw := fr.vc.heapHavoc(fr.st, h)
-		if li.declared != nil && !ws.all && !strings.HasPrefix(h, "G$") && !wholeDeclared(li, h) {
+		if li.declared != nil && !ws.all && !strings.HasPrefix(h, "G$") && !wholeDeclared(li, h) && !strings.HasPrefix(h, "RV$") {
+			// (RV$: the visited set of the range loop's iterator grows in every
+			// iteration - framing it made visited() empty at every loop head)
 			fr.vc.fact(loopFrameFormula(li, h, nw, old))
 		}
-	}
-	if ws.allocs || ws.all {
-		a := fr.vc.fresh("alloc", sInt)
-		fr.vc.fact(app("<=", fr.st.alloc, a))
-		fr.st.alloc = a
 	}
 	li.headSt = fr.st.clone()
 	if fr.parent == nil && fr.eng.loopHasWait(li) {
@@ -686,7 +690,7 @@ func loopFrameFormula(li *loopInfo, h, a, b string) string {
 	for _, r := range li.declared[h] {
 		excl = append(excl, app("distinct", "r!", r))
 	}
-	cond := and(append([]string{app("<=", "r!", li.entryAlloc)}, excl...)...)
+	cond := and(append([]string{app("<=", "0", "r!"), app("<=", "r!", li.entryAlloc)}, excl...)...)
 	return fmt.Sprintf("(forall ((r! Int)) (! (=> %s (= (select %s r!) (select %s r!))) :pattern ((select %s r!))))", cond, a, b, a)
 }
 
@@ -701,6 +705,7 @@ func (fr *Frame) stale(name string, err error) {
 func (fr *Frame) execBlock(b *ssa.BasicBlock) {
 	for _, in := range b.Instrs {
 		fr.curInstr = in
+		fr.vc.curReach = fr.reach
 		switch i := in.(type) {
 		case *ssa.Phi, *ssa.DebugRef:
 			continue
@@ -757,6 +762,19 @@ func (fr *Frame) doReturn(r *ssa.Return) {
 // resolveLocal finds the SSA value bound to a source variable name as seen
 // from block `at` (nil = anywhere).  Phis of the loop header win, then
 // parameters, then the closest dominating DebugRef.
+// resolveLocalCurrent: like resolveLocal, but a parameter that the body
+// reassigns resolves to its current value (dominating phi / latest
+// definition) instead of its entry value.
+func (fr *Frame) resolveLocalCurrent(name string, li *loopInfo) (*Val, bool) {
+	fr.wantCurrent = true
+	v, ok := fr.resolveLocal(name, li)
+	fr.wantCurrent = false
+	if ok {
+		return v, true
+	}
+	return fr.resolveLocal(name, li)
+}
+
 func (fr *Frame) resolveLocal(name string, li *loopInfo) (*Val, bool) {
 	if li != nil {
 		for _, in := range li.header.Instrs {
@@ -769,7 +787,7 @@ func (fr *Frame) resolveLocal(name string, li *loopInfo) (*Val, bool) {
 	}
 	// an address-taken parameter lives in its own cell: its current value is what the code sees
 	for i, p := range fr.fn.Params {
-		if p.Name() == name {
+		if p.Name() == name && !fr.wantCurrent {
 			for _, d := range fr.debugRefs {
 				if d.IsAddr {
 					if id, ok := d.Expr.(*ast.Ident); ok && id.Name == name && d.Object() == p.Object() {
